@@ -310,7 +310,7 @@ def gen_value(rng, fresh, model, cfg, space=None):
         sps = all_spaces(model)
         if sps:
             t = rng.choice(sps)
-            cs = list(visible_cells(t))
+            cs = [n for n, (d, c) in visible_cells(t).items() if d is t or cfg.get("dangling_objrefs")]
             if cs and rng.random() < 0.6:
                 return {"t": "obj", "space": t.path(), "cells": rng.choice(cs)}
             return {"t": "obj", "space": t.path()}
